@@ -27,33 +27,10 @@ namespace Malt.Cache
 section generic
 variable {Opts Factory : Type} [BEq Opts] [Hashable Opts] [LawfulBEq Opts]
 
-/-- All requests of a history. -/
-def allReqs (progs : List (List (Request Opts))) : List (Request Opts) := progs.flatten
-
 private theorem mem_allReqs (progs : List (List (Request Opts))) :
     ∀ p ∈ progs, ∀ r ∈ p, r ∈ allReqs progs := by
   intro p hp r hr
   exact List.mem_flatten.mpr ⟨p, hp, hr⟩
-
-/-- The one modelling assumption the real code can falsify: the conversion does not depend on the
-requester's namespace. -/
-def EnvIrrelevant (T : Code → Opts → Nat → Option Factory) : Prop := ∀ c o s s', T c o s = T c o s'
-
-/-- The conversion depends on the code *object* (through which the source text is found) only via
-its value.  False of the real code: annotations, decorators and the file are not part of the value. -/
-def SrcByVal (T : Code → Opts → Nat → Option Factory) : Prop := ∀ c c' o s, c.val = c'.val → T c o s = T c' o s
-
-/-- Decidable form for one history: functions with equal code have the same conversion-relevant view
-of their namespace. -/
-def SigCoherent (P : List (Request Opts)) : Prop :=
-  ∀ r ∈ P, ∀ r' ∈ P, r.code.val = r'.code.val → r.env.sig = r'.env.sig
-
-instance (P : List (Request Opts)) : Decidable (SigCoherent P) := by unfold SigCoherent; infer_instance
-
-/-- The finished requests of a state, with their outcome (`some f`: returned `f.instantiate(own
-environment)`; `none`: raised `KeyError`). -/
-def finished (s : State Opts Factory) : List (Request Opts × Option Factory) :=
-  (s.threads.map (fun th => th.results)).flatten
 
 private theorem mem_finished {s : State Opts Factory} {e : Request Opts × Option Factory}
     (h : e ∈ finished s) : ∃ th ∈ s.threads, e ∈ th.results := by
@@ -340,18 +317,18 @@ Options are modelled by `Nat` here; `T c o s = 1000000·c.id + 10000·c.val + 10
 source, options and namespace a factory was made from. -/
 section examples
 
-def exT : Code → Nat → Nat → Option Nat := fun c o s =>
+private def exT : Code → Nat → Nat → Option Nat := fun c o s =>
   if c.val = 13 then none else some (c.id * 1000000 + c.val * 10000 + o * 100 + s)
-def thr (t n : Nat) : List Label := List.replicate n (.thr t)
-def outs (s : State Nat Nat) : List (List (Option Nat)) := s.threads.map (fun th => th.results.map (·.2))
+private def thr (t n : Nat) : List Label := List.replicate n (.thr t)
+private def outs (s : State Nat Nat) : List (List (Option Nat)) := s.threads.map (fun th => th.results.map (·.2))
 
 /-- Two functions sharing one code object (value 7), same namespace view, same options. -/
-def exRace : List (List (Request Nat)) := [[⟨⟨1, 7⟩, 0, ⟨1, 5⟩⟩], [⟨⟨1, 7⟩, 0, ⟨2, 5⟩⟩]]
+private def exRace : List (List (Request Nat)) := [[⟨⟨1, 7⟩, 0, ⟨1, 5⟩⟩], [⟨⟨1, 7⟩, 0, ⟨2, 5⟩⟩]]
 
 /-- Both threads race on the same key: both miss in the lock-free check, thread 1 wins the lock and
 converts, thread 0 blocks, then finds the entry in the re-check under the lock.  One transformation,
 both served the same factory. -/
-def exRaceSched : List Label :=
+private def exRaceSched : List Label :=
   thr 0 2 ++ thr 1 2 ++ thr 1 1 ++ thr 0 3 ++ thr 1 8 ++ thr 0 8
 
 example : outs (run exT (init exRace) exRaceSched) = [[some 1070005], [some 1070005]] := by decide
@@ -370,7 +347,7 @@ example : outs (run exT (init exRace) (thr 0 2 ++ thr 1 3 ++ thr 0 5 ++ thr 1 20
   decide
 
 /-- Different options, different code, redefinition after `gc`. -/
-def exKeys : List (List (Request Nat)) :=
+private def exKeys : List (List (Request Nat)) :=
   [[⟨⟨1, 7⟩, 0, ⟨1, 5⟩⟩, ⟨⟨1, 7⟩, 1, ⟨1, 5⟩⟩], [⟨⟨2, 8⟩, 0, ⟨2, 5⟩⟩, ⟨⟨1, 7⟩, 0, ⟨3, 5⟩⟩]]
 set_option maxRecDepth 8192 in
 example : outs (run exT (init exKeys) (thr 0 30 ++ [.gc ⟨1, 7⟩] ++ thr 1 30)) =
@@ -382,9 +359,9 @@ example : xcount (run exT (init exKeys) (thr 0 30 ++ [.gc ⟨1, 7⟩] ++ thr 1 3
 functions share a code object but see different namespaces (`sig` 1 vs 2, e.g. global `m` is
 `malt.experimental` for one and a user object for the other).  The second is served the conversion
 made against the first one's namespace. -/
-def exSig : List (List (Request Nat)) := [[⟨⟨1, 7⟩, 0, ⟨1, 1⟩⟩], [⟨⟨1, 7⟩, 0, ⟨2, 2⟩⟩]]
+private def exSig : List (List (Request Nat)) := [[⟨⟨1, 7⟩, 0, ⟨1, 1⟩⟩], [⟨⟨1, 7⟩, 0, ⟨2, 2⟩⟩]]
 /-- Code objects 1 and 2 are distinct but equal (`exec` of the same source twice, or equal `def`s in two files). -/
-def exKeyErr : List (List (Request Nat)) := [[⟨⟨1, 7⟩, 0, ⟨1, 5⟩⟩], [⟨⟨2, 7⟩, 0, ⟨2, 5⟩⟩]]
+private def exKeyErr : List (List (Request Nat)) := [[⟨⟨1, 7⟩, 0, ⟨1, 5⟩⟩], [⟨⟨2, 7⟩, 0, ⟨2, 5⟩⟩]]
 
 theorem C10_result_counterexample :
     ¬ (∀ (T : Code → Nat → Nat → Option Nat) (progs : List (List (Request Nat))) (sched : List Label),
@@ -414,7 +391,7 @@ example : ¬ SigCoherent (allReqs exSig) := by decide
 1 and 2 are distinct but equal (`exec` of the same source twice).  Thread 0 converts (1, options 0);
 thread 1 converts (2, options 1) — stored in the bucket keyed by object 1; object 1 dies; thread 1 asks
 for (2, options 1) again while object 2 stayed alive: second transformation. -/
-def exEq : List (List (Request Nat)) :=
+private def exEq : List (List (Request Nat)) :=
   [[⟨⟨1, 7⟩, 0, ⟨1, 5⟩⟩], [⟨⟨2, 7⟩, 1, ⟨2, 5⟩⟩, ⟨⟨2, 7⟩, 1, ⟨2, 5⟩⟩]]
 
 theorem C10_once_counterexample :
@@ -439,7 +416,7 @@ theorem C10_no_error_counterexample :
 
 /-- A conversion that raises (code value 13): each request retries and fails, nothing is cached, the
 lock is released every time and the other thread is not disturbed. -/
-def exFail : List (List (Request Nat)) :=
+private def exFail : List (List (Request Nat)) :=
   [[⟨⟨3, 13⟩, 0, ⟨1, 5⟩⟩, ⟨⟨3, 13⟩, 0, ⟨1, 5⟩⟩], [⟨⟨1, 7⟩, 0, ⟨2, 5⟩⟩]]
 set_option maxRecDepth 8192 in
 example : outs (run exT (init exFail) (thr 0 5 ++ thr 1 3 ++ thr 0 20 ++ thr 1 20)) =
